@@ -11,8 +11,8 @@ import (
 func init() {
 	regSpec(scen.Roles)
 	Registry["C08"] = func(tier string) int {
-		return engineA("C08", tier, []scen.Spec{scen.Roles(), scen.Core(), scen.Market()},
+		return engineA("C08", tier, []scen.Spec{scen.Roles(), scen.Market(), scen.Core()},
 			func() []explore.Monitor { return []explore.Monitor{&mon.C08{Authority: scen.G.String()}} },
-			budget(tier, 100*time.Second, 15*time.Minute))
+			budget(tier, 200*time.Second, 15*time.Minute))
 	}
 }
